@@ -1,6 +1,6 @@
 (* Property C11 — the wallet database gives atomic, isolated, ordered key/value transactions.
-   Only statements here; each is closed by [exact] of a lemma proved in KV/Proofs.v and followed by
-   Print Assumptions.
+   Only statements here; each is closed by [exact] of a lemma proved in KV/Proofs.v (Proofs2.v: bucket index invariant
+   and exact listing, Proofs3.v: nested-map refinement, Proofs4.v: no orphans) and followed by Print Assumptions.
    Model: KV/Model.v — masswallet/db/db.go (BytesPrefix, Update) and masswallet/db/ldb/leveldb.go (batch, transaction,
    levelBucket, batchIterator, levelIterator), one Gallina function per Go method.  goleveldb is environment:
    DB.Get = [s_get], DB.Write(batch) = [apply_log] (atomic, in recording order), a range iterator = the ascending
@@ -12,7 +12,7 @@
 From Coq Require Import List ZArith Sorted.
 Import ListNotations.
 Open Scope Z_scope.
-Require Import MW.KV.Model MW.KV.Proofs.
+Require Import MW.KV.Model MW.KV.Proofs MW.KV.Proofs2 MW.KV.Proofs3 MW.KV.Proofs4.
 
 (* ---- atomicity *)
 (* Commit applies exactly the recorded log, Rollback nothing; db.Update with a failing function leaves the store as it
@@ -72,16 +72,224 @@ Theorem C11_read_your_writes_prefix_once : forall s b h prefix, keys_sorted s ->
 Proof. exact get_by_prefix_nodup. Qed.
 Print Assumptions C11_read_your_writes_prefix_once.
 
-(* partial: whenever a bucket listing inside a write transaction succeeds it is, as a set, the values of the bucket
-   index entries under the listing prefix in the store as it would be after commit.  Missing for full strength: that
-   the listing never answers ErrIllegalValue in reachable states and that those entries are exactly the children
-   "b_<depth+1>_<path>_<name>" — this needs a store-wide well-formedness invariant of the index that is not proved;
-   the correspondence runs and the reference map cover it. *)
+(* (subsumed by C11_bucket_names_exact below; kept because other files may use it)  Whenever a bucket listing inside a
+   write transaction succeeds it is, as a set, the values of the bucket index entries under the listing prefix in the
+   store as it would be after commit. *)
 Theorem C11_read_your_writes_names_partial : forall s b pfx d l, keys_sorted s -> keys_bytes s -> batch_wf b -> bytes_ok pfx ->
   names_scan s (Some b) pfx d = Ok l ->
   forall name, In name l <-> exists key, has_prefix pfx key = true /\ s_get key (apply_log s (b_log b)) = Some name.
 Proof. exact read_your_writes_names_scan. Qed.
 Print Assumptions C11_read_your_writes_names_partial.
+
+(* ---- the store-wide well-formedness invariant of the bucket index.
+   [entry_ok k v] (Proofs2): the stored entry is either a bucket index entry
+       "b_<depth>_<name1>_..._<nameDepth>" -> nameDepth          ([index_entry])
+   or a data entry
+       "<depth>_<name1>_..._<nameDepth>_<key>" -> value, key and value non-empty   ([data_entry])
+   with depth = the number of names >= 1 and every name legal (non-empty, at most 256 bytes, no '_', bytes).
+   [store_ok s]: every entry of the store is [entry_ok].  [batch_idx_ok b]: every put the open batch has recorded (in
+   its summary and in its log) is [entry_ok].  [handle_ok h]: the handle's path is the canonical path of a legal name
+   tuple and its depth is the tuple's length.  [op_bytes o]: the byte-string arguments of the operation are []byte
+   (typing of the op language, not a restriction).
+   The invariant holds in EVERY state reachable from the empty database by ANY typed operation sequence (bucket
+   create / delete (recursive) / put / delete / clear / commit / rollback / db.Update with and without error / read
+   transactions / reopen, at every nesting depth, with the code as it is now and as first found): for the committed
+   store, for the open write transaction (its batch, and the store as it would be after commit), for the store a read
+   transaction captured, and for every bucket handle the API has handed out. *)
+Theorem C11_index_invariant : forall snap ops, Forall op_bytes ops ->
+  let st := exec snap init_state ops in
+  store_ok (st_store st) /\
+  match st_wtx st with Some b => batch_idx_ok b /\ store_ok (commit (st_store st) b) | None => True end /\
+  match st_rtx st with Some s0 => store_ok s0 | None => True end /\
+  Forall (fun o : option (bool * handle) => match o with Some (_, h) => handle_ok h | None => True end) (st_bs st).
+Proof. exact run_idx_inv_explicit. Qed.
+Print Assumptions C11_index_invariant.
+
+(* it is inductive: every single operation preserves it ([idx_inv] = [inv] of C11_invariant_all_sequences + the above) *)
+Theorem C11_index_invariant_step : forall snap st o, idx_inv st -> op_bytes o -> idx_inv (fst (step_gen snap st o)).
+Proof. exact step_idx_inv. Qed.
+Print Assumptions C11_index_invariant_step.
+
+(* ... and so does every model function by itself (any committed store, any batch satisfying the invariant) *)
+Theorem C11_index_invariant_ops :
+  (forall s b name, bytes_ok name -> batch_idx_ok b -> batch_idx_ok (snd (create_top_level s b name))) /\
+  (forall s ob h name, handle_ok h -> bytes_ok name -> obatch_ok ob -> obatch_ok (snd (new_bucket s ob h name))) /\
+  (forall s ob h name, obatch_ok ob -> obatch_ok (snd (delete_bucket s ob h name))) /\
+  (forall ob h k v, handle_ok h -> bytes_ok k -> obatch_ok ob -> obatch_ok (snd (bucket_put ob h k v))) /\
+  (forall ob h k, obatch_ok ob -> obatch_ok (snd (bucket_delete ob h k))) /\
+  (forall s ob h, obatch_ok ob -> obatch_ok (snd (clear s ob h))) /\
+  (forall s b, store_ok s -> batch_idx_ok b -> store_ok (commit s b)) /\
+  (forall s b, store_ok s -> store_ok (rollback s b)).
+Proof. exact idx_ops_preserve. Qed.
+Print Assumptions C11_index_invariant_ops.
+
+(* ---- the listing, at full strength.
+   [view_store s ob]: the store as the transaction sees it = the committed store with the transaction's own log
+   applied (write transaction, ob = Some b), or the store itself (read transaction, ob = None).
+   [child_exists V ns name]: name is a legal bucket name and the index entry of the bucket (ns ++ [name]) is in V.
+   For any store and batch satisfying the invariants (that is: in every reachable state) and any handle of the
+   canonical form, levelBucket.BucketNames — and transaction.BucketNames for the top level — never answers
+   ErrIllegalValue (nor any error), lists every name once, and lists EXACTLY the children that exist in the
+   transaction's own view: created and not deleted since, whether committed or pending. *)
+Theorem C11_bucket_names_exact :
+  (forall s ob h ns, keys_sorted s -> store_ok s -> obwf ob -> obatch_ok ob ->
+     names_ok ns -> h_path h = path_of ns -> h_depth h = length ns ->
+     exists l, bucket_names s ob h = Ok l /\ NoDup l /\ forall name, In name l <-> child_exists (view_store s ob) ns name) /\
+  (forall s ob, keys_sorted s -> store_ok s -> obwf ob -> obatch_ok ob ->
+     exists l, tx_bucket_names s ob = Ok l /\ NoDup l /\ forall name, In name l <-> child_exists (view_store s ob) [] name).
+Proof. exact (conj bucket_names_exact tx_bucket_names_exact). Qed.
+Print Assumptions C11_bucket_names_exact.
+
+(* the same, for the states reachable by any typed operation sequence, through any bucket slot and any open
+   transaction (write or read; for a read transaction [vs] is the store it captured when it began): the result of the
+   listing operation of the op language *)
+Theorem C11_bucket_names_exact_reachable : forall snap ops, Forall op_bytes ops ->
+  let st := exec snap init_state ops in
+  (forall src w h vs ob, slot_view snap st src = Some (w, h, vs, ob) ->
+     exists ns l, names_ok ns /\ h_path h = path_of ns /\ h_depth h = length ns /\
+       snd (step_gen snap st (ONames src)) = RNames l /\ NoDup l /\
+       forall name, In name l <-> child_exists (view_store vs ob) ns name) /\
+  (forall w vs ob, tx_view snap st w = Some (vs, ob) ->
+     exists l, snd (step_gen snap st (OTxNames w)) = RNames l /\ NoDup l /\
+       forall name, In name l <-> child_exists (view_store vs ob) [] name).
+Proof. exact run_names_exact. Qed.
+Print Assumptions C11_bucket_names_exact_reachable.
+
+(* Bucket(name) against the listing: it answers non-nil exactly for the children that are committed OR in the
+   transaction's view.  So every listed child opens, in a read transaction lookup and listing agree, but in a write
+   transaction Bucket(name) still answers for a committed child the transaction has deleted
+   (C11_lookup_after_delete_refuted) *)
+Theorem C11_bucket_lookup : forall s ob h ns name, obwf ob -> names_ok ns -> h_path h = path_of ns -> h_depth h = length ns ->
+  (bucket s ob h name <> None <-> child_exists s ns name \/ child_exists (view_store s ob) ns name).
+Proof. exact bucket_lookup_char. Qed.
+Print Assumptions C11_bucket_lookup.
+
+(* ---- recursive bucket deletion.  [vw s b] = the write transaction's view as a function from stored keys;
+   [under q key]: key is the index entry or a data entry of a bucket whose name tuple extends q;
+   [shrinks q f f']: view f' is view f with some keys [under q] removed and nothing else changed;
+   [chain f q ms]: the buckets q+[m1], q+[m1;m2], ... all exist in f.
+   DeleteBucket(name), whatever it answers, only removes, and only inside the child's subtree; when it answers nil
+   and the child exists, every bucket connected to the child through existing buckets is gone with all its data. *)
+Theorem C11_delete_bucket_effect : forall s b h ns n r b', keys_sorted s -> store_ok s -> binv b -> hnd h ns ->
+  delete_bucket s (Some b) h n = (r, Some b') ->
+  shrinks (ns ++ [n]) (vw s b) (vw s b') /\
+  (r = Ok tt -> bkf (vw s b) (ns ++ [n]) ->
+   forall ms key, names_wf ((ns ++ [n]) ++ ms) -> node_key ((ns ++ [n]) ++ ms) key -> chain (vw s b) (ns ++ [n]) ms ->
+     vw s b' key = None).
+Proof. exact delete_bucket_effect. Qed.
+Print Assumptions C11_delete_bucket_effect.
+
+(* ---- refinement to a nested map.
+   [tree] = Node (entries : key -> option value) (children : name -> option tree).
+   [rep f ns t]: t is the nested map that view f holds at and below the bucket with name tuple ns (ns = []: the
+   database; its children are the top-level buckets): t's entries are the data entries of ns, t has a child for
+   exactly the legal names whose bucket exists, recursively.  [abs_tree V] is the abstraction function: it takes EVERY
+   store to its nested map, which is unique up to extensional equality [teq]. *)
+Theorem C11_abstraction :
+  (forall V, rep (sget V) [] (abs_tree V)) /\
+  (forall t1 f ns t2, rep f ns t1 -> rep f ns t2 -> teq t1 t2) /\
+  (forall f p pre t, rep f pre t -> valid_names p -> (t_at t p <> None <-> chain f pre p)).
+Proof. exact (conj abs_tree_rep (conj rep_unique t_at_chain)). Qed.
+Print Assumptions C11_abstraction.
+
+(* every operation of an open write transaction (committed store s, batch b, both satisfying the invariants — i.e. in
+   every reachable state) commutes with the tree operation: with t = the nested map of the transaction's view,
+   - the listing of the top level / of a bucket that is in the tree = the names of the node's children, Get = the
+     node's entry;
+   - Put / Delete / Clear / NewBucket / CreateTopLevelBucket / DeleteBucket (recursive) take t to
+     t_put / t_delete / t_clear / t_create / t_create / t_remove of t (update of the entries / an added empty child /
+     a dropped child with its whole subtree, at the node of the handle; no effect when the handle's bucket is not in
+     the tree), up to [teq].
+   Commit makes the view the committed store, Rollback leaves the committed store (C11_store_changes_only_at_commit), so
+   the committed nested map becomes t, respectively stays.
+   The create clauses need that nothing is stored under the new bucket's name ([fresh]) unless the bucket is there:
+   that holds when handles are not used after their bucket was deleted, see C11_nested_map_refinement_reachable. *)
+Theorem C11_nested_map_refinement : forall s b, keys_sorted s -> store_ok s -> binv b ->
+  let t := abs_tree (commit s b) in
+  rep (sget (commit s b)) [] t /\
+  (exists l, tx_bucket_names s (Some b) = Ok l /\ NoDup l /\ forall n, In n l <-> t_kids t n <> None) /\
+  (forall n h' b', create_top_level s b n = (Ok h', b') ->
+     bkf (sget (commit s b)) [n] \/ fresh (sget (commit s b)) [n] ->
+     teq (abs_tree (commit s b')) (t_create t [] n)) /\
+  forall h ns, hnd h ns ->
+    (forall tn, t_at t ns = Some tn ->
+       (forall key, key <> [] -> bucket_get s (Some b) h key = t_ents tn key) /\
+       (exists l, bucket_names s (Some b) h = Ok l /\ NoDup l /\ forall n, In n l <-> t_kids tn n <> None)) /\
+    (forall key v b', bucket_put (Some b) h key v = (Ok tt, Some b') -> teq (abs_tree (commit s b')) (t_put t ns key v)) /\
+    (forall key b', key <> [] -> bucket_delete (Some b) h key = (Ok tt, Some b') -> teq (abs_tree (commit s b')) (t_delete t ns key)) /\
+    (forall b', clear s (Some b) h = (Ok tt, Some b') -> teq (abs_tree (commit s b')) (t_clear t ns)) /\
+    (forall n sub b', new_bucket s (Some b) h n = (Ok sub, Some b') ->
+       bkf (sget (commit s b)) (ns ++ [n]) \/ fresh (sget (commit s b)) (ns ++ [n]) ->
+       teq (abs_tree (commit s b')) (t_create t ns n)) /\
+    (forall n b', delete_bucket s (Some b) h n = (Ok tt, Some b') -> teq (abs_tree (commit s b')) (t_remove t ns n)).
+Proof. exact nested_map_refinement. Qed.
+Print Assumptions C11_nested_map_refinement.
+
+(* [live_use]: NewBucket and Put go through handles whose bucket exists in the write transaction's view;
+   [disciplined snap st ops]: every operation of the sequence is a [live_use] in the state it is executed in.
+   Along every typed, disciplined operation sequence there are no orphans — every stored bucket's parent and every
+   stored entry's bucket exist ([closed]) — in the committed store, in the write transaction's view and in the store
+   a read transaction captured ... *)
+Theorem C11_no_orphans_disciplined : forall snap ops, Forall op_bytes ops -> disciplined snap init_state ops ->
+  let st := exec snap init_state ops in
+  closed (sget (st_store st)) /\
+  match st_wtx st with Some b => closed (vw (st_store st) b) | None => True end /\
+  match st_rtx st with Some s0 => closed (sget s0) | None => True end.
+Proof. exact run_closed. Qed.
+Print Assumptions C11_no_orphans_disciplined.
+
+(* ... and there the refinement holds without side conditions *)
+Theorem C11_nested_map_refinement_reachable : forall snap ops, Forall op_bytes ops -> disciplined snap init_state ops ->
+  let st := exec snap init_state ops in
+  forall b, st_wtx st = Some b ->
+  let s := st_store st in
+  let t := abs_tree (commit s b) in
+  rep (sget (commit s b)) [] t /\
+  (exists l, tx_bucket_names s (Some b) = Ok l /\ NoDup l /\ forall n, In n l <-> t_kids t n <> None) /\
+  (forall n h' b', create_top_level s b n = (Ok h', b') -> teq (abs_tree (commit s b')) (t_create t [] n)) /\
+  forall h ns, hnd h ns ->
+    (forall tn, t_at t ns = Some tn ->
+       (forall key, key <> [] -> bucket_get s (Some b) h key = t_ents tn key) /\
+       (exists l, bucket_names s (Some b) h = Ok l /\ NoDup l /\ forall n, In n l <-> t_kids tn n <> None)) /\
+    (forall key v b', bucket_put (Some b) h key v = (Ok tt, Some b') -> teq (abs_tree (commit s b')) (t_put t ns key v)) /\
+    (forall key b', key <> [] -> bucket_delete (Some b) h key = (Ok tt, Some b') -> teq (abs_tree (commit s b')) (t_delete t ns key)) /\
+    (forall b', clear s (Some b) h = (Ok tt, Some b') -> teq (abs_tree (commit s b')) (t_clear t ns)) /\
+    (forall n sub b', new_bucket s (Some b) h n = (Ok sub, Some b') -> teq (abs_tree (commit s b')) (t_create t ns n)) /\
+    (forall n b', delete_bucket s (Some b) h n = (Ok tt, Some b') -> teq (abs_tree (commit s b')) (t_remove t ns n)).
+Proof. exact nested_map_refinement_run. Qed.
+Print Assumptions C11_nested_map_refinement_reachable.
+
+(* ---- what is NOT invariant (closed witnesses; all three reproduce on the Go code)
+   "every bucket's parent exists" fails without the discipline: a handle kept after DeleteBucket of its bucket still
+   creates sub-buckets and stores data (Proofs2.orphan_ops: create a, a.NewBucket x, a.DeleteBucket x, x.NewBucket y,
+   x.Put k v, commit): the committed store holds b_3_a_x_y and 2_a_x_k but not b_2_a_x ... *)
+Theorem C11_parent_exists_refuted :
+  exists ops ns n, Forall op_bytes ops /\ ns <> [] /\
+    s_get (index_key (path_of (ns ++ [n]))) (st_store (run ops)) <> None /\
+    s_get (index_key (path_of ns)) (st_store (run ops)) = None.
+Proof. exact parent_exists_refuted. Qed.
+Print Assumptions C11_parent_exists_refuted.
+(* ... and a bucket x created afresh afterwards is born with the sub-bucket y and the key k *)
+Theorem C11_fresh_bucket_not_empty_refuted :
+  Forall op_bytes resurrect_ops /\
+  snd (step (run orphan_ops) (ODump)) <> RSkip /\
+  snd (step (run resurrect_ops) (ONames 1)) = RNames [n_y] /\
+  snd (step (run resurrect_ops) (OGet 1 [107])) = RVal [118].
+Proof. exact fresh_bucket_not_empty_refuted. Qed.
+Print Assumptions C11_fresh_bucket_not_empty_refuted.
+(* Bucket(x) right after DeleteBucket(x) of a committed bucket, same write transaction: the listing is empty, the lookup answers *)
+Theorem C11_lookup_after_delete_refuted :
+  Forall op_bytes lookup_ops /\
+  snd (step (run lookup_ops) (ONames 0)) = RNames [] /\
+  snd (step (run lookup_ops) (OBucket 1 0 n_x)) = ROk.
+Proof. exact lookup_after_delete_refuted. Qed.
+Print Assumptions C11_lookup_after_delete_refuted.
+(* NewBucket(x) twice in one write transaction succeeds twice; after a commit the second is refused with ErrBucketExist *)
+Theorem C11_create_twice_refuted :
+  snd (step (run twice_ops) (ONew 2 0 n_x)) = ROk /\
+  snd (step (run (twice_ops ++ [OCommit; OBegin true; OTop true 0 n_a])) (ONew 2 0 n_x)) = RErr EBucketExist.
+Proof. exact create_twice_refuted. Qed.
+Print Assumptions C11_create_twice_refuted.
 
 (* the read functions handed a store [s] and no batch (that is what a read transaction calls) return exactly [s]'s content *)
 Theorem C11_read_functions_on_store : forall s h,
@@ -241,3 +449,58 @@ Proof. vm_compute. repeat split. Qed.
 Example C11_ex_iter :
   drain 10 (new_iterator (st_store (run ex_ops)) None (mkHandle [49; 95; 97] 1) [] []) = [([107; 95; 255], [118])].
 Proof. vm_compute. reflexivity. Qed.
+
+(* ---- non-vacuity of the index invariant, the exact listing and the refinement *)
+(* committed: a, a/x, a/y, a/x/z with z.k = v;  then, in an open write transaction: DeleteBucket a/x (recursive), NewBucket a/w *)
+Definition ex2_pre : list op :=
+  [OBegin true; OCreateTop 0 [97]; ONew 1 0 [120]; ONew 2 0 [121]; ONew 3 1 [122]; OPut 3 [107] [118]; OCommit].
+Definition ex2_ops : list op := ex2_pre ++ [OBegin true; OTop true 0 [97]; ODelBucket 0 [120]; ONew 4 0 [119]].
+Example C11_ex2_bytes : Forall op_bytes ex2_ops.
+Proof. unfold ex2_ops, ex2_pre. cbn [app]. repeat (apply Forall_cons; [cbn [op_bytes]; solve_bytes|]). apply Forall_nil. Qed.
+(* the listing of a inside the write transaction: y (committed) and w (pending), not x (committed, deleted here);
+   the committed store still lists x and y, and the recursive delete has taken a/x/z and its data from the view *)
+Example C11_ex2_names :
+  snd (step (run ex2_ops) (ONames 0)) = RNames [[121]; [119]] /\
+  tx_bucket_names (st_store (run ex2_ops)) None = Ok [[97]] /\
+  bucket_names (st_store (run ex2_ops)) None (mkHandle [49; 95; 97] 1) = Ok [[120]; [121]] /\
+  (exists b, st_wtx (run ex2_ops) = Some b /\
+     vw (st_store (run ex2_ops)) b (index_key (path_of [[97]; [120]; [122]])) = None /\
+     vw (st_store (run ex2_ops)) b (inner_key (path_of [[97]; [120]; [122]]) [107]) = None /\
+     s_get (inner_key (path_of [[97]; [120]; [122]]) [107]) (st_store (run ex2_ops)) = Some [118]).
+Proof. vm_compute. repeat split. eexists. repeat split. Qed.
+(* the hypotheses of C11_bucket_names_exact / C11_nested_map_refinement are met by that state (non-empty store, non-empty batch) *)
+Example C11_ex2_hyps :
+  exists b, st_wtx (run ex2_ops) = Some b /\ b_log b <> [] /\ st_store (run ex2_ops) <> [] /\
+    keys_sorted (st_store (run ex2_ops)) /\ store_ok (st_store (run ex2_ops)) /\ binv b /\
+    hnd (mkHandle [49; 95; 97] 1) [[97]] /\ get_slot 0 (st_bs (run ex2_ops)) = Some (true, mkHandle [49; 95; 97] 1).
+Proof.
+  pose proof (run_idx_inv true ex2_ops C11_ex2_bytes) as [[Hsorted [Hwf _]] [Hs [Hidx _]]].
+  unfold run.
+  destruct (st_wtx (exec true init_state ex2_ops)) as [b|] eqn:E; [|vm_compute in E; discriminate].
+  exists b. split; [reflexivity|]. split; [intros Hl; vm_compute in E; inversion E; subst b; vm_compute in Hl; discriminate|].
+  split; [vm_compute; discriminate|]. split; [exact Hsorted|]. split; [exact Hs|]. split; [split; [exact Hwf|exact Hidx]|].
+  split; [|vm_compute; reflexivity].
+  split; [split; [discriminate|split; [repeat constructor|solve_bytes]]|split; vm_compute; reflexivity].
+Qed.
+(* the nested map of the committed store of ex2_pre: a -> { x -> { z -> {k = v} }, y -> {} } *)
+Example C11_ex2_tree :
+  let t := abs_tree (st_store (run ex2_pre)) in
+  (match t_at t [[97]; [120]; [122]] with Some tn => t_ents tn [107] | None => None end) = Some [118] /\
+  (match t_at t [[97]] with Some tn => (match t_kids tn [120], t_kids tn [121], t_kids tn [122] with Some _, Some _, None => true | _, _, _ => false end) | None => false end) = true /\
+  (match t_at t [[97]; [121]] with Some tn => (match t_kids tn [120] with None => true | Some _ => false end) | None => false end) = true /\
+  (match t_at t [[97]; [119]] with Some _ => false | None => true end) = true.
+Proof. vm_compute. repeat split. Qed.
+(* a disciplined sequence (the premise of C11_no_orphans_disciplined / C11_nested_map_refinement_reachable) *)
+Definition ex3_ops : list op := [OBegin true; OCreateTop 0 [97]; ONew 1 0 [120]; OPut 1 [107] [118]].
+Example C11_ex3_disciplined : Forall op_bytes ex3_ops /\ disciplined true init_state ex3_ops /\
+  exists b, st_wtx (exec true init_state ex3_ops) = Some b /\ b_log b <> [].
+Proof.
+  split; [unfold ex3_ops; repeat (apply Forall_cons; [cbn [op_bytes]; solve_bytes|]); apply Forall_nil|].
+  split.
+  - unfold ex3_ops. cbn [disciplined live_use]. split; [exact I|]. split; [exact I|]. split; [|split; [|exact I]].
+    + intros h vs b H. vm_compute in H. inversion H; subst. exists [[97]].
+      split; [split; [split; [discriminate|split; [repeat constructor|solve_bytes]]|split; vm_compute; reflexivity]|vm_compute; discriminate].
+    + intros h vs b H. vm_compute in H. inversion H; subst. exists [[97]; [120]].
+      split; [split; [split; [discriminate|split; [repeat constructor|solve_bytes]]|split; vm_compute; reflexivity]|vm_compute; discriminate].
+  - vm_compute. eexists. split; [reflexivity|discriminate].
+Qed.
